@@ -30,12 +30,16 @@ pub(crate) fn scan_dimen<S: TexlangState>(
             // TeX.2021.449
             use super::integer::InternalNumber;
             match super::integer::parse_internal_number(input, first_token, command_ref)? {
-                InternalNumber::Integer(i) => (negative * i.signum(), i.abs(), Scaled::ZERO),
+                // i32::MIN is outside TeX's range of integers and has no absolute value;
+                // every unit makes the saturated value overflow as well.
+                InternalNumber::Integer(i) => {
+                    (negative * i.signum(), i.saturating_abs(), Scaled::ZERO)
+                }
                 InternalNumber::Dimen(d) => {
-                    return Ok(d * negative);
+                    return Ok(attach_sign(input, first_token, d)? * negative);
                 }
                 InternalNumber::Glue(g) => {
-                    return Ok(g.width * negative);
+                    return Ok(attach_sign(input, first_token, g.width)? * negative);
                 }
             }
         }
@@ -51,6 +55,21 @@ pub(crate) fn scan_dimen<S: TexlangState>(
         fractional_part,
         glue_order,
     )? * negative)
+}
+
+/// The range check at the label attach_sign of TeX.2021.448, for an internal dimension.
+///
+/// A register can hold a value outside of the legal range because `\advance` does not check for overflow.
+fn attach_sign<S: TexlangState>(
+    input: &mut vm::ExpandedStream<S>,
+    first_token: token::Token,
+    d: Scaled,
+) -> txl::Result<Scaled> {
+    if d.0.unsigned_abs() > Scaled::MAX_DIMEN.0 as u32 {
+        handle_overflow(input, first_token, false)
+    } else {
+        Ok(d)
+    }
 }
 
 /// Part of TeX.2021.448
@@ -149,9 +168,10 @@ pub(crate) fn scan_and_apply_units<S: TexlangState>(
             }
         };
         if let Some(v) = v_or {
-            let adjusted_fractional_part = v
-                .xn_over_d(fractional_part.0, Scaled::ONE.0)
-                .expect("n<d=Scaled::ONE, so overflow can't occur");
+            // v can be outside of the legal range if it is an integer or a register modified by \advance
+            let Ok(adjusted_fractional_part) = v.xn_over_d(fractional_part.0, Scaled::ONE.0) else {
+                return handle_overflow(input, first_token, v < Scaled::ZERO);
+            };
             return match v.nx_plus_y(integer_part, adjusted_fractional_part.0) {
                 Ok(s) => Ok(s),
                 Err(_) => handle_overflow(input, first_token, v < Scaled::ZERO),
